@@ -11,7 +11,7 @@
    program by running the extracted monitor on the real compiler's binary (tools/c08.py): translation
    validation, with the validator's soundness proved here. *)
 From Coq Require Import ZArith List Lia.
-From HexVerif Require Import WMap Isa IsaMon IsaMonProofs XAst XSem.
+From HexVerif Require Import WMap Isa IsaMon IsaMonProofs XAst XSem XCodegenIsa XCodegenInv XCodegenExpr XCodegenStmt.
 Import ListNotations.
 Local Open Scope Z_scope.
 
@@ -58,6 +58,31 @@ Theorem C08_validated_run_partial : forall (compile : program -> option (list Z)
   C08_clauses (layout_of img) n (boot img) (console_input inp).
 Proof. intros compile layout_of p inp img n _. exact (monitor_sound (layout_of img) n (boot img) (console_input inp)). Qed.
 Print Assumptions C08_validated_run_partial.
+
+(* (5) PARTIAL: the frame discipline of the generated code, proved for the statement fragment of
+   Properties_C01.C01_stmt_fragment_partial (skip, return, if, while, sequences, assignment, put -- no calls), at
+   statement granularity: when the code xcmp's model generates for a statement has run to its end (XSem executes
+   the statement normally from a related state), the stack-pointer word mem[1] holds what it held, no protected
+   word (code, constant pool) has changed, and every other change lies in the procedure's temporaries, its
+   outgoing area [sp, sp+og), or the word of a variable in scope (a global's DATA word, a local or formal frame
+   word).  `stmt_ok f` is C01_stmt_fragment_partial's conclusion (proved for every f).
+   Missing for C08_full: the clauses for every intermediate access (this is the net effect between statement
+   boundaries; the per-access clauses are decided per program by the monitor, C08_monitor_sound), procedure calls
+   (prologue/epilogue balance across a call), and the entry/exit stub. *)
+Theorem C08_frame_discipline_partial :
+  forall venv pool size nslots off0 og exitl ge P m0 lab sp f,
+    stmt_ok venv pool size nslots off0 og exitl ge P m0 lab sp f ->
+    forall s n code n' st st', cs venv pool size nslots off0 og exitl s n = Some (code, n') ->
+    exec f ge s st = Ret Normal st' ->
+    forall m pos nxt a b inp, Rel venv ge P m0 sp st m -> code_at (C P m0) lab pos code nxt ->
+    0 <= pos -> nxt < W -> 0 <= lab exitl < W ->
+    exists evs a' b' m',
+      runs inp (mk pos a b 0 m) evs inp (mk nxt a' b' 0 m') /\
+      rd m' 1 = rd m 1 /\
+      (forall x, 0 <= x -> P x -> rd m' x = rd m x) /\
+      (forall x, 0 <= x -> ~ scratch size nslots off0 og sp x -> ~ var_word venv sp x -> rd m' x = rd m x).
+Proof. exact frame_discipline. Qed.
+Print Assumptions C08_frame_discipline_partial.
 
 (* Non-vacuity.  The image the repaired xcmp emits for `proc main() is skip` (5 words; data word 1 = stack
    pointer 199997; _exit at byte 10) is accepted by the monitor for its whole run (11 instructions), so the
